@@ -317,6 +317,16 @@ example : runEvents (fun _ => none) {}
      .run [(Regs.empty, [.use (.meas 10)])], .reset, .run [(Regs.empty, [.use (.meas 10)])]]
     = [([], none), ([], some (.unmeasured 2)), ([3], none), ([], some (.unmeasured 10))] := by decide +kernel
 
+/-- heterodyne outcome `3/10 + 4/10 i` of subsystem 10: `im(q10)`, `re(conjugate(q10) * I)`, `q10 * conjugate(q10)` -/
+def cEnv : Env (Rat × Rat) := ⟨fun _ => none, fun m => if m = 10 then some (3 / 10, 4 / 10) else none⟩
+example : eval cEnv (.fn1 "im" (.meas 10)) = .ok (4 / 10, 0) ∧
+    eval cEnv (.fn1 "re" (.mul (.fn1 "conjugate" (.meas 10)) (.fn1 "I" (.num 1)))) = .ok (4 / 10, 0) ∧
+    eval cEnv (.mul (.meas 10) (.fn1 "conjugate" (.meas 10))) = .ok (1 / 4, 0) := by decide +kernel
+-- … and the substituted expression evaluates to the same (`eval_subst` at a complex value)
+example : eval (⟨fun _ => none, fun _ => none⟩ : Env (Rat × Rat))
+    (subst ⟨fun _ => none, fun m => if m = 10 then some (.add (.num (3 / 10)) (.mul (.num (4 / 10)) (.fn1 "I" (.num 1)))) else none⟩
+      (.fn1 "im" (.meas 10))) = .ok (4 / 10, 0) := by decide +kernel
+
 /-- a history over three segments: measure 0 and 2, re-prepare 0, use q0, re-measure 0, use q0+q2 -/
 def hist : List (Regs Rat × List (Cmd Rat)) :=
   [ (Regs.empty, [.measure [0, 2] [1 / 2, 5], .prepare 0, .use (.meas 0)]),
